@@ -41,7 +41,7 @@ SEND_FULL = SEND_CORE + [{"t": "2"}, {"t": "8"}, {"t": "4", "seq": "nout"}, {"t"
                          {"t": "4", "seq": "missing"}, {"t": "4", "seq": "nout", "plain": True}, {"t": "4", "seq": "below", "plain": True},
                          {"t": "4", "seq": "above", "plain": True}, {"t": "D", "pd": True, "seq": "below"}, {"t": "D", "pd": True, "seq": "nout"},
                          {"t": "D", "pd": True, "seq": "missing"}, {"t": "D", "stale": "34", "seq": "below"},
-                         {"t": "D", "stale": "N", "seq": "below"}, {"t": "D", "stale": "N", "seq": "above"}]
+                         {"t": "D", "stale": "N", "seq": "below"}, {"t": "D", "stale": "N", "seq": "above"}, {"t": "D", "pdn": True}]
 IN_CORE = [{"cls": "logon", "rel": "at"}, {"cls": "app", "rel": "at"}, {"cls": "app", "rel": "plus1"}, {"cls": "tr", "rel": "at"},
            {"cls": "hb", "rel": "at", "id": "wrong"}]
 IN_FULL = IN_CORE + [{"cls": "logon", "rel": "plus1"}, {"cls": "hb", "rel": "at", "id": "match"}, {"cls": "logout", "rel": "at"},
